@@ -6,7 +6,9 @@
    tree-sitter, the recursive walkers or the OS raise or hang on a given byte string - is validated at run time
    by the mutation stream of harness/props/c11.py. *)
 From TL Require Import Lib.Base Lib.GenTypes Model.ContainTypes Gen.ContainGen Model.Contain
-     Proofs.ContainMain Proofs.ContainDetect Proofs.ContainStaged Gen.CensusGen Proofs.ContainCensus Model.ContainWalk Proofs.ContainWalk.
+     Proofs.ContainMain Proofs.ContainDetect Proofs.ContainStaged Gen.CensusGen Proofs.ContainCensus Model.ContainWalk Proofs.ContainWalk
+     Gen.ContainOutGen Model.ContainOut Model.ContainOutRun Proofs.ContainOut.
+Require Import ZArith.
 
 (* ---- 1. sibling isolation ------------------------------------------------------------------------------------ *)
 (* For every rule set (rules = arbitrary partial functions), every file list and EVERY set `bad` of files - in
@@ -288,6 +290,99 @@ Print Assumptions C11_walker_faithful_partial.
 Theorem C11_walker_total : forall q fuel ty t, q_walk_recursive q = false -> walker q fuel ty t = Some (count ty t).
 Proof. exact walker_ideal_total. Qed.
 Print Assumptions C11_walker_total.
+
+(* ---- 11. the output stage (format_violations + exit status): outside the per-rule safety net ---------------------- *)
+(* Python values by type tag (int / None / str / enum member); what each formatter does with each field of a Violation is
+   read from the source (Gen/ContainOutGen.v: output_uses).  The output stage ends with 0 or 1 EXACTLY when every formatter
+   operation is defined on every field of every violation ... *)
+Theorem C11_output_exit_ok_iff : forall fmt vs,
+  (out_exit fmt vs = 0 \/ out_exit fmt vs = 1) <-> (forall v, In v vs -> fmt_ok fmt v = true).
+Proof. exact out_exit_ok_iff. Qed.
+Print Assumptions C11_output_exit_ok_iff.
+
+(* ... one field of the wrong type in ONE violation costs the whole run (the CLI error status, all results lost) ... *)
+Theorem C11_output_one_bad_field_costs_the_run : forall fmt vs v,
+  In v vs -> fmt_ok fmt v = false -> out_exit fmt vs = cli_error_exit.
+Proof. exact out_exit_one_bad_field. Qed.
+Print Assumptions C11_output_one_bad_field_costs_the_run.
+
+(* ... with the annotated field types (str, int, int, str, Severity) every format name ends with 0 / 1 ... *)
+Theorem C11_output_typed_exit : forall fmt vs, (forall v, In v vs -> well_typed v = true) ->
+  out_exit fmt vs = match vs with [] => 0 | _ => 1 end.
+Proof. exact out_exit_typed. Qed.
+Print Assumptions C11_output_typed_exit.
+
+(* ... and exit status 0 / 1 REQUIRES them: sarif needs a str rule id and message and an int column (`column + 1`) ... *)
+Theorem C11_output_sarif_requires : forall vs, (out_exit "sarif" vs = 0 \/ out_exit "sarif" vs = 1) ->
+  forall v, In v vs -> is_str (o_rule v) = true /\ is_str (o_msg v) = true /\ is_int (o_col v) = true /\ is_enum (o_line v) = false.
+Proof. exact sarif_exit_requires. Qed.
+Print Assumptions C11_output_sarif_requires.
+
+Theorem C11_output_json_requires : forall vs, (out_exit "json" vs = 0 \/ out_exit "json" vs = 1) ->
+  forall v, In v vs -> is_str (o_msg v) = true /\ is_enum (o_sev v) = true /\ is_enum (o_rule v) = false /\ is_enum (o_line v) = false /\ is_enum (o_col v) = false.
+Proof. exact json_exit_requires. Qed.
+Print Assumptions C11_output_json_requires.
+
+Theorem C11_output_text_requires : forall vs, (out_exit "text" vs = 0 \/ out_exit "text" vs = 1) ->
+  forall v, In v vs -> is_str (o_msg v) = true /\ is_enum (o_sev v) = true.
+Proof. exact text_exit_requires. Qed.
+Print Assumptions C11_output_text_requires.
+
+(* every format ends with 0 / 1 iff rule id and message are strings, the column an int, the severity an enum member and the line
+   a JSON value *)
+Theorem C11_output_all_formats_iff : forall vs,
+  (forall fmt, out_exit fmt vs = 0 \/ out_exit fmt vs = 1) <-> (forall v, In v vs -> fields_needed v = true).
+Proof. exact all_formats_exit_ok_iff. Qed.
+Print Assumptions C11_output_all_formats_iff.
+
+(* the SARIF region of a well-typed violation is valid (startLine, startColumn >= 1) iff the line is 1-based and the column 0-based;
+   a line of None passes the formatter with exit status 1 but the document is not valid SARIF *)
+Theorem C11_sarif_region_valid_iff : forall v l c, well_typed v = true -> o_line v = PInt l -> o_col v = PInt c ->
+  exists r, sarif_region v = Some r /\ (region_valid r = true <-> (1 <= l /\ 0 <= c)%Z).
+Proof. exact sarif_region_valid_iff. Qed.
+Print Assumptions C11_sarif_region_valid_iff.
+
+Theorem C11_sarif_none_line_passes_but_invalid : forall v, o_line v = PNone -> fmt_ok "sarif" v = true ->
+  exists r, sarif_region v = Some r /\ region_valid r = false.
+Proof. exact sarif_none_line_passes_but_invalid. Qed.
+Print Assumptions C11_sarif_none_line_passes_but_invalid.
+
+(* the exit status of the containment theorems (sections 5, 6) is the status of the whole command provided every reported
+   violation has well-typed fields; in general the command ends with 0 / 1 iff the run completed and the formatter gets through *)
+Theorem C11_cli_exit_typed_is_exit_code : forall fmt rend r,
+  (forall v, well_typed (rend v) = true) -> cli_exit fmt rend r = exit_code r.
+Proof. exact cli_exit_typed_is_exit_code. Qed.
+Print Assumptions C11_cli_exit_typed_is_exit_code.
+
+Theorem C11_cli_exit_ok_iff : forall fmt rend r,
+  (cli_exit fmt rend r = 0 \/ cli_exit fmt rend r = 1) <->
+  exists cs fs, r = Completed cs fs /\ forall v, In v (flat_viols cs fs) -> fmt_ok fmt (rend v) = true.
+Proof. exact cli_exit_ok_iff. Qed.
+Print Assumptions C11_cli_exit_ok_iff.
+
+(* censuses regenerated from the source: every format_violations call is directly followed by sys.exit(1 if <same list> else 0);
+   every position attribute of a caught SyntaxError (None when the error has no position: a NUL byte in the source) is defaulted
+   with `or <int>` before it becomes a field of a Violation *)
+Theorem C11_output_exit_sites_uniform :
+  forallb (fun s : string * bool => snd s) output_exit_sites = true /\ 15 <= List.length output_exit_sites.
+Proof. exact output_exit_sites_uniform. Qed.
+Print Assumptions C11_output_exit_sites_uniform.
+
+Theorem C11_syntax_error_fields_defaulted :
+  forallb (fun s : string * bool => snd s) syntax_error_fields = true /\ 1 <= List.length syntax_error_fields.
+Proof. exact syntax_error_fields_defaulted. Qed.
+Print Assumptions C11_syntax_error_fields_defaulted.
+
+(* non-vacuity: a syntax-error violation whose column is None (what SyntaxError.offset is for a source with a NUL byte) next to a
+   healthy one: text and json end with 1, sarif with the CLI error status; with column 0 all three end with 1 and the region is valid *)
+Definition ex_viol (col : pv) : oviol :=
+  {| o_rule := PStr "nesting.excessive-depth"; o_file := PStr "damaged.py"; o_line := PInt 1; o_col := col;
+     o_msg := PStr "Syntax error: source code string cannot contain null bytes"; o_sev := PEnum "ERROR"; o_sugg := PNone |}.
+Example C11_output_nonvacuous :
+  map (fun f => out_exit f [ex_viol (PInt 4); ex_viol PNone]) ["text"; "json"; "sarif"] = [1; 1; cli_error_exit]
+  /\ map (fun f => out_exit f [ex_viol (PInt 4); ex_viol (PInt 0)]) ["text"; "json"; "sarif"] = [1; 1; 1]
+  /\ judge_out "sarif" [ex_viol (PInt 0)] 1 [(PInt 1, PInt 1)] = [true; true; true; true; true].
+Proof. vm_compute. repeat split; reflexivity. Qed.
 
 (* non-vacuity: a run with two rules and three files, one rule failing (RecursionError) on the middle file:
    all hypotheses hold, the failing pair costs its own cell only, H1 shows it *)
